@@ -1,17 +1,19 @@
 package props
 
 import (
-	"time"
-
 	"context"
 	"fmt"
+	"os"
 	"path/filepath"
 	"regexp"
 	"sort"
 	"strings"
-	"verifharness/internal/conc"
+	"time"
 
+	"github.com/glebziz/fs_db"
 	"github.com/glebziz/fs_db/pkg/verif"
+
+	"verifharness/internal/conc"
 
 	"verifharness/internal/dbx"
 	"verifharness/internal/rt"
@@ -31,7 +33,7 @@ func init() {
 	})
 	register(&Prop{
 		ID: "C17", Level: "exploration",
-		Rule:        "long sequential histories with 1-3 roots and a directory limit of 100, 128, 150 or 260 (and 0, 1, 99 to exercise the clamp to 100): several hundred live keys so that directories fill up and rotate, delete waves followed by collector passes and drains so that rotated-out directories regain room, reopens; after EVERY step the tree below the roots is walked: every regular file lies exactly at root/<uuid>/<file>, every entry directly below a root is a UUID-named directory, no directory holds more than max(limit,100) entries, every root offers a directory to write to (the candidates the directory repository returns); a directory that regained room must be among the candidates and, when there are at most two candidates, receive a file within 64 later writes. evaluations = steps after which the tree was checked; distinct_nontrivial = distinct (configuration, event) pairs among {rotation, re-activation of a directory, reuse of a re-activated directory, reopen scan}",
+		Rule:        "long sequential histories with 1-3 roots and a directory limit of 100, 128, 150 or 260 (and 0, 1, 99 to exercise the clamp to 100): several hundred live keys so that directories fill up and rotate, delete waves followed by collector passes and drains so that rotated-out directories regain room, reopens; after EVERY step the tree below the roots is walked: every regular file lies exactly at root/<uuid>/<file>, every entry directly below a root is a UUID-named directory, no directory holds more than max(limit,100) entries, every root offers a directory to write to (the candidates the directory repository returns); a directory that regained room must be among the candidates and receive a file within 30 x candidates later writes; with two or more roots a final phase reopens the database with its last root taken out of the configuration, deletes, collects and writes again: everything stays readable and no new file may appear below the removed root. evaluations = steps after which the tree was checked; distinct_nontrivial = distinct (configuration, event) pairs among {rotation, re-activation of a directory, reuse of a re-activated directory, reopen scan}",
 		Assumptions: []string{"the harness puts nothing else below the roots"},
 		Roles:       map[string]Role{"main": {N: func(t string) int { return tierN(t, 8, 128) }, Case: c17Case}},
 	})
@@ -446,7 +448,74 @@ func c17Case(tier string, seed int64, idx int, scratch string) rt.CaseResult {
 	if idx == 0 {
 		c.Sample = map[string]any{"config": cfgName, "steps": len(steps), "directories_seen": len(seenDirs)}
 	}
+	if nroots >= 2 && !c17RetiredRoot(&c, r, idx, live, replay) {
+		return c
+	}
 	return c
+}
+
+// c17RetiredRoot: the database is reopened with its last root taken out of the configuration.
+// Files that lie there may be read and removed; deletions re-activate directories there; but no
+// new content file may be created below a root that is not configured.
+func c17RetiredRoot(c *rt.CaseResult, r *seqrun.Runner, idx int, live []string, replay map[string]any) bool {
+	old := r.Env
+	roots := old.Cfg.Storage.RootDirs
+	retired := filepath.Clean(roots[len(roots)-1])
+	listRetired := func() map[string]bool {
+		out := map[string]bool{}
+		filepath.WalkDir(retired, func(p string, d os.DirEntry, err error) error {
+			if err == nil && d.Type().IsRegular() {
+				out[p] = true
+			}
+			return nil
+		})
+		return out
+	}
+	if err := old.Close(); err != nil {
+		c.Violate("close-failed", err.Error(), replay)
+		return false
+	}
+	eo := old.Opt
+	eo.RootPaths = append([]string(nil), roots[:len(roots)-1]...)
+	env, err := dbx.Open(eo)
+	if err != nil {
+		c.Violate("open-failed after-removing-a-root", err.Error(), replay)
+		return false
+	}
+	r.Env = env
+	r.M.Reopen()
+	r.Txs = map[int]fs_db.Tx{}
+	before := listRetired()
+	var steps []seqrun.Step
+	for i := 0; i < 60 && i < len(live); i++ {
+		steps = append(steps, seqrun.Step{Op: "delete", Actor: -1, Key: live[i]})
+	}
+	steps = append(steps, seqrun.Step{Op: "collect", Actor: -1}, seqrun.Step{Op: "drain", Actor: -1})
+	for i := 0; i < 80; i++ {
+		steps = append(steps, seqrun.Step{Op: "set", Actor: -1, Key: fmt.Sprintf("retired%d-%d", idx, i), Tag: fmt.Sprintf("c%d-rt%d", idx, i), Len: 5})
+	}
+	for i, s := range steps {
+		if m := r.Do(100000+i, s); m != nil {
+			replay["step"] = s
+			c.Violate(m.Sig+" after-removing-a-root", m.Error(), replay)
+			return false
+		}
+		for p := range listRetired() {
+			if !before[p] {
+				replay["step"] = s
+				c.Violate("file-created-below-unconfigured-root", fmt.Sprintf("after the database was reopened without root %s, step %d (%s %q) created %s there", retired, i, s.Op, s.Key, p), replay)
+				return false
+			}
+		}
+		c.Evals++
+	}
+	if m := r.ProbeAll(100000+len(steps), seqrun.Step{Op: "getkeys", Actor: -1}); m != nil {
+		c.Violate(m.Sig+" after-removing-a-root", m.Error(), replay)
+		return false
+	}
+	c.AddDistinct(fmt.Sprintf("roots=%d/root-removed-from-configuration", len(roots)))
+	c.Count("files_left_below_the_removed_root", int64(len(before)))
+	return true
 }
 
 func keysOfSet(m map[string]bool) []string {
